@@ -129,3 +129,37 @@ func DoneOrRetrying(done func() bool, frames []string, timeout time.Duration) (r
 		time.Sleep(20 * time.Microsecond)
 	}
 }
+
+// Fingerprint maps every relevant goroutine (frames of the code under test or of the harness, the caller excluded) to
+// the top frame of its stack: function line and file:line+offset. A goroutine that is parked — or was made runnable
+// but has not executed a single instruction since — keeps its fingerprint; one that ran does not (it is gone, or
+// stopped somewhere else). Used to certify that nobody ran during a burst of producer calls.
+func Fingerprint() map[uint64]string {
+	self := goid()
+	out := map[uint64]string{}
+	for _, g := range sched.Snapshot() {
+		if !relevant(g, self) {
+			continue
+		}
+		lines := strings.SplitN(g.Text, "\n", 4)
+		fp := ""
+		if len(lines) >= 3 {
+			fp = lines[1] + "|" + strings.TrimSpace(lines[2])
+		}
+		out[g.ID] = fp
+	}
+	return out
+}
+
+// SameFingerprints: exactly the same goroutines with exactly the same top frames.
+func SameFingerprints(a, b map[uint64]string) bool {
+	if len(a) != len(b) {
+		return false
+	}
+	for id, fp := range a {
+		if b[id] != fp {
+			return false
+		}
+	}
+	return true
+}
